@@ -12,23 +12,23 @@ import (
 // ParsedSender is the decoded sender→receiver stream of a pull from a server
 // (daemon or command mode): seed, file list, replies, statistics.
 type ParsedSender struct {
-	Lines   []string
-	Seed    int32
-	List    *FileList
-	Sorted  []Entry
-	Replies []*Reply
-	Echoes  []int32 // dry-run index echoes
-	Stats   [3]int64
-	Frames  int
-	Infos   []string
-	ErrMsg  string
-	Stage   string
+	Lines      []string
+	Seed       int32
+	List       *FileList
+	Sorted     []Entry
+	Replies    []*Reply
+	Echoes     []int32 // dry-run index echoes
+	Stats      [3]int64
+	Frames     int
+	Infos      []string
+	ErrMsg     string
+	Stage      string
 	FrameSizes []int
-	BadTag  bool
-	Trailing int
+	BadTag     bool
+	Trailing   int
 	// MuxBase: BytesIn value at which the multiplexed part starts (offsets of
 	// replies are relative to the demultiplexed stream: subtract MuxBase)
-	MuxBase int64
+	MuxBase     int64
 	PreambleLen int // raw bytes before the first frame
 }
 
